@@ -22,6 +22,7 @@ import re
 
 from ..astq import strip, strip_casts, calls, call_args, call_object, norm, literal_value, src, writes, written_field
 from ..facts import AnalysisBroken, VERIF, walk
+from ..cfg import CFG
 from ..rules import ptrorder
 from .c15 import rule_init
 
@@ -448,6 +449,92 @@ def rule_translation(chk, prog):
         (r.bad if bad else r.ok)(ns + "::Block::updateWeightedPosition", fn.where(), bad or "")
 
 
+def rule_borders_exception_safe(chk, prog):
+    """The rectangle borders are process-wide: an exception that leaves a function while they are changed poisons every later call."""
+    from ..callgraph import CallGraph
+    from ..astq import in_macro
+    r = chk.rule("BORDERS-EXCEPTION-SAFE", "every function of the five libraries that changes vpsc::Rectangle::xBorder / yBorder: if, between the change "
+                 "and the next border call, it calls anything from which a `throw` is reachable in the call graph (the solver's "
+                 "UnsatisfiedConstraint, libcola's InvalidVariableIndexException, ...; assertion macros excluded), the exit by exception is "
+                 "protected -- the change sits in a try block whose catch-all handler puts the borders back, or a local guard object declared "
+                 "before the change does so in its destructor; functions whose changed stretch cannot throw need nothing", floor=5)
+    cg = CallGraph(prog)
+    by_key = {f.key: f for f in prog.all_functions()}
+    throws = set()
+    for f in prog.all_functions():
+        if f.body and any(n.get("k") == "CXXThrowExpr" and n.get("ch") and not in_macro(f, n) for n in f.nodes()):
+            throws.add(f.key)
+    may = set(throws)
+    changed = True
+    callers = {}
+    for k, es in cg.edges.items():
+        for e in es:
+            callers.setdefault(e, set()).add(k)
+    work = list(throws)
+    while work:
+        k = work.pop()
+        for c in callers.get(k, ()):
+            if c not in may:
+                may.add(c)
+                work.append(c)
+    setters = ("vpsc::Rectangle::setXBorder", "vpsc::Rectangle::setYBorder")
+    n_fn = 0
+    for fn in prog.all_functions():
+        if not fn.body or "/tests/" in fn.file:
+            continue
+        sets = [c for c in calls(fn) if c.get("cname") in setters]
+        if not sets:
+            continue
+        n_fn += 1
+        g = CFG(fn)
+        set_ids = {c["id"] for c in sets}
+        risky = []
+        for m in sets:
+            a = strip_casts(call_args(m)[0])
+            if literal_value(a) in ("0", "0.0", 0):
+                continue                                    # putting the default back
+            for c in calls(fn):
+                if c["id"] in set_ids or c.get("id") not in g.pos:
+                    continue
+                tgt = c.get("callee")
+                cands = {tgt} | set(cg.overriders.get(tgt, ())) if c.get("virt") else {tgt}
+                if not (cands & may):
+                    continue
+                # (same-condition pairs `if (h) set(eps); ...; if (h) set(0);` make the path that skips the second `if` infeasible: the
+                # stretch ends, in source order, at the next border call after the change)
+                later = [x.get("l", 0) for x in sets if x.get("l", 0) > m.get("l", 0)]
+                if later and c.get("l", 0) > min(later):
+                    continue
+                if g.search([g.after(m["id"])], blocked=list(set_ids - {m["id"]}), targets=[c["id"]]) is not None:
+                    risky.append((m, c))
+        r.count()
+        if not risky:
+            r.ok(fn.q, fn.where(), "no throwing call while the border is changed")
+            continue
+        m, c = risky[0]
+        prot = None
+        tries = [a_ for a_ in fn.ancestors(m) if a_.get("k") == "CXXTryStmt"]
+        for t in tries:
+            for h in t.get("handlers", []):
+                if h.get("ct") in (None, "<null>") and h.get("var") is None and any(x.get("cname") in setters for x in walk(h.get("body") or {})):
+                    prot = "catch-all handler restores"
+        if prot is None:
+            for d in fn.nodes():
+                if d.get("k") == "VarDecl" and d.get("l", 10 ** 9) <= m.get("l", 0):
+                    t_ = str(d.get("t", "")).replace("struct ", "").replace("class ", "")
+                    for dq in (t_, "cola::" + t_, "vpsc::" + t_, "topology::" + t_):
+                        for df in prog.fns(dq + "::~" + t_.split("::")[-1]):
+                            if df.body and any(x.get("cname") in setters for x in calls(df)):
+                                prot = "guard object `%s` restores in its destructor" % d.get("name")
+        if prot:
+            r.ok(fn.q, fn.loc(m), "%s (e.g. %s may throw)" % (prot, str(c.get("cname"))))
+        else:
+            r.bad(fn.q, fn.loc(c), "%s can throw while the process-wide rectangle border set at line %s is still in force, and nothing restores it on "
+                  "that exit: every later layout / overlap removal in the process works with enlarged rectangles" % (str(c.get("cname")), m.get("l")))
+    if n_fn < 4:
+        raise AnalysisBroken("functions changing the rectangle borders not found (%d)" % n_fn)
+
+
 def run(chk):
     prog = chk.load()
     reviewed = load_reviewed()
@@ -462,6 +549,7 @@ def run(chk):
     from .c09 import rule_paired_borders
     from .c05 import rule_turn_prune_mirror, rule_flags_mirror, rule_endpoint_dirs
     chk.guard(rule_paired_borders, chk, prog)
+    chk.guard(rule_borders_exception_safe, chk, prog)
     chk.guard(rule_turn_prune_mirror, chk, prog)
     chk.guard(rule_flags_mirror, chk, prog)          # low/high passes of the visibility flags are mirror images
     chk.guard(rule_endpoint_dirs, chk, prog)         # up/down permitted directions are treated alike
@@ -472,5 +560,7 @@ def run(chk):
     chk.guard(rule_init, chk, prog, prop="C20")
     from .c15 import rule_array_init
     chk.guard(rule_array_init, chk, prog)
+    from .c15 import rule_point_vectors_filled
+    chk.guard(rule_point_vectors_filled, chk, prog)     # a skipped element of a size-constructed Point vector is heap garbage
     from .c07 import rule_done_reset
     chk.guard(rule_done_reset, chk, prog)            # a shared convergence test must not carry state from one layout into the next
